@@ -5,17 +5,20 @@
 package c06
 
 import (
+	"bytes"
 	"fmt"
 	"math/rand"
 	"strings"
 	"sync"
 	"testing"
+	"time"
 
 	"github.com/256dpi/gomqtt/packet"
 
 	"verif/internal/bh"
 	"verif/internal/h"
 	"verif/internal/ref"
+	"verif/internal/wire"
 )
 
 // the universe includes names and filters with empty levels (a//b, a/b/, /a):
@@ -514,9 +517,90 @@ func runConcurrent(r *h.Run, idx int) {
 	r.Eval()
 }
 
+// burst: a connected subscriber stops reading for a moment while more messages
+// than its session queue holds (queue 4, bounded wire) are published to it. A
+// connected subscriber is never skipped: the publisher is held back instead;
+// when the subscriber reads again it gets every message once, in order.
+func burst(r *h.Run, idx int) {
+	if r.TooMany() {
+		return
+	}
+	q := packet.QOS(idx % 2) // (a QoS 2 stream would need the publisher's PUBREL handshake; C16 covers QoS 2 flow)
+	n := 20 + idx%5*10
+	label := fmt.Sprintf("burst #%d: %d QoS %d messages to a subscriber that pauses reading (queue 4)", idx, n, q)
+	r.Journal("C06 %s", label)
+	b := bh.NewBroker()
+	b.Mon.Inner.SessionQueueSize = 4
+	defer b.Shutdown()
+	fail := func(key, msg string) {
+		r.Violation("burst/"+key, label+": "+msg, map[string]interface{}{"detail": msg, "event_log_tail": b.Log.Dump(150)})
+	}
+	sub, _, sca, err := b.Connect("sub", bh.ConnectOpts{ID: "c06-burst-sub", Clean: true, AutoAck: true}, func(fc *bh.FConn, be, pe *wire.End) {
+		be.SetCapacity(512)
+	})
+	if err != nil || sca == nil {
+		r.Inconclusive(label + ": subscriber could not connect")
+		return
+	}
+	_ = sub.Send(&packet.Subscribe{ID: 1, Subscriptions: []packet.Subscription{{Topic: "burst/#", QOS: 2}}})
+	if _, err := bh.AwaitAck(sub, packet.SUBACK, 1); err != nil {
+		r.Inconclusive(label + ": SUBACK")
+		return
+	}
+	pub, _, pca, err := b.Connect("pub", bh.ConnectOpts{ID: "c06-burst-pub", Clean: true, AutoAck: true}, nil)
+	if err != nil || pca == nil {
+		r.Inconclusive(label + ": publisher could not connect")
+		return
+	}
+	gate := make(chan struct{})
+	sub.End.SetReadGate(gate)
+	for i := 0; i < n; i++ {
+		p := &packet.Publish{Message: packet.Message{Topic: "burst/x", QOS: q, Payload: append([]byte(fmt.Sprintf("b%04d|", i)), bytes.Repeat([]byte{'.'}, 120)...)}}
+		if q > 0 {
+			p.ID = packet.ID(i + 1)
+		}
+		_ = pub.Send(p)
+	}
+	_ = pub.Send(&packet.Publish{Message: packet.Message{Topic: "burst/end", QOS: q, Payload: []byte("end")}, ID: packet.ID(n + 1)})
+	time.Sleep(3 * time.Millisecond) // shaping: let the queue and the wire fill up
+	close(gate)
+	ok := sub.WaitCond(bh.Watchdog, func(all []packet.Generic) bool {
+		for i := len(all) - 1; i >= 0; i-- {
+			if pp, is := all[i].(*packet.Publish); is && pp.Message.Topic == "burst/end" {
+				return true
+			}
+		}
+		return false
+	})
+	var got []int
+	for _, g := range sub.All() {
+		if pp, is := g.(*packet.Publish); is && pp.Message.Topic == "burst/x" && !pp.Dup {
+			var k int
+			fmt.Sscanf(string(pp.Message.Payload), "b%d|", &k)
+			got = append(got, k)
+		}
+	}
+	if !ok {
+		fail("stalled", fmt.Sprintf("the end marker never reached the subscriber (%d of %d messages arrived)", len(got), n))
+		return
+	}
+	if len(got) != n {
+		fail("message-count", fmt.Sprintf("%d of %d messages reached the connected subscriber: %v", len(got), n, got))
+		return
+	}
+	for i, k := range got {
+		if k != i {
+			fail("order", fmt.Sprintf("message #%d arrived at position %d: %v", k, i, got))
+			return
+		}
+	}
+	r.Eval()
+	r.NonTrivial(fmt.Sprintf("burst:%d:%d", q, n))
+}
+
 func TestCheck(t *testing.T) {
 	r := h.New("C06", "exploration")
-	r.Rule("sequential: PRNG histories of ~30 operations over 1-6 clients {join, disconnect, subscribe 1-4 filters with different QoS, unsubscribe, publish qos 0-2 (1/8 retained), payloads up to 64 KiB} on a topic/filter universe with overlaps and wildcards; after every operation a marker fence, then the PUBLISH multiset each connected client received is compared with the reference model (topic, payload, retain flag, QoS within the set allowed by its matching filters, packet id presence). Concurrent: 2-6 clients run scripts at once, judged by event-log order (constant matching status => exactly 0/1, otherwise 0 or 1, never 2). Non-trivial = histories with a publish matching >= 2 clients or >= 2 filters of one client; distinct by history")
+	r.Rule("sequential: PRNG histories of ~30 operations over 1-6 clients {join, disconnect, subscribe 1-4 filters with different QoS, unsubscribe, publish qos 0-2 (1/8 retained), payloads up to 64 KiB} on a topic/filter universe with overlaps and wildcards; after every operation a marker fence, then the PUBLISH multiset each connected client received is compared with the reference model (topic, payload, retain flag, QoS within the set allowed by its matching filters, packet id presence). Concurrent: 2-6 clients run scripts at once, judged by event-log order (constant matching status => exactly 0/1, otherwise 0 or 1, never 2). Burst part: 20-60 messages of one QoS to a connected subscriber that pauses reading behind a bounded wire with a session queue of 4: all arrive once, in order. Non-trivial = histories with a publish matching >= 2 clients or >= 2 filters of one client; distinct by history")
 	r.Assume("peers keep reading and acknowledge every delivery; persistent client ids are not reused within a history (offline behaviour is C08)")
 	r.Assume("retained replays on subscribe: 1..k copies when k filters of the SUBSCRIBE match (per-filter replay is allowed)")
 	nseq := r.Pick(120, 2500)
@@ -532,5 +616,8 @@ func TestCheck(t *testing.T) {
 	nconc := r.Pick(40, 1000)
 	h.Parallel(nconc, 4, func(i int) { runConcurrent(r, i) })
 	r.Count("concurrent_runs", int64(nconc))
+	nburst := r.Pick(15, 300)
+	h.Parallel(nburst, 4, func(i int) { burst(r, i) })
+	r.Count("burst_runs", int64(nburst))
 	h.Exit(r.Finish(20))
 }
